@@ -66,7 +66,8 @@ def observe(ctx, data, keytap):
     global _hash_log
     from aioquic import tls
     R = ir()
-    traced = set(R["functions"]) - {"_check_certificate_verify_signature"}
+    inl = R.get("inlined", {})
+    traced = (set(R["functions"]) | {h for hs in inl.values() for h in hs}) - {"_check_certificate_verify_signature"}
     fname = tls.__file__
     events = []          # (function, line)
 
@@ -122,18 +123,30 @@ def observe(ctx, data, keytap):
     # handler: first traced function entered that is not the dispatcher
     o.fn = next((f for f, _ in events if f != "_handle_reassembled_message"), None)
     o.dispatched = any(f == "_handle_reassembled_message" for f, _ in events)
+    # the handler is the first traced function that is one of the extracted handlers
+    o.fn = next((f for f, _ in events if f in R["functions"]), None)
     fns = [o.fn] + R["_callees"].get(o.fn, []) if o.fn else []
+    for f in list(fns):                      # private helpers inlined into them by the extractor
+        fns += [h for h in inl.get(f, []) if h not in fns]
     lines = {f: [l for g, l in events if g == f] for f in fns}
     o.lines = lines
-    o.tests = sorted(t["name"] for t in R["tests"] if t["fn"] in lines
-                     and any(t["true_lo"] <= l <= t["true_hi"] for l in lines[t["fn"]]))
+
+    def truth(t):
+        ls = lines[t["fn"]]
+        body = any(t["true_lo"] <= l <= t["true_hi"] for l in ls)
+        if not t.get("flipped"):
+            return body
+        # the named test is the NEGATION of the source test: true iff the `if` was reached and its body skipped
+        return (not body) and any(t["line"] <= l < t["true_lo"] for l in ls)
+    o.tests = sorted(t["name"] for t in R["tests"] if t["fn"] in lines and truth(t))
     o.fail = None
     if o.exc is not None and o.fn is not None:
         hev = [(f, l) for f, l in events if f in fns]
         if hev:
             f, l = hev[-1]
             best = None
-            for s in R["functions"][f]:
+            cand = [x for g in fns if g in R["functions"] for x in R["functions"][g] if x.get("src", g) == f]
+            for s in cand:
                 if s["line"] <= l <= s["end"] and (best is None or s["end"] - s["line"] < best["end"] - best["line"]):
                     best = s
             o.fail = best["line"] if best else l
